@@ -1,6 +1,6 @@
 #!/bin/sh
 # seed_matrix.sh [seed dirs...]: apply each kept seeded change in turn to a SCRATCH worktree of /repo's HEAD and run the responsible check
-# and the checks of the related properties (ALL=1: every claimed check) - quick tier - against it from a SCRATCH copy of /verif (own build directory), so that /repo and /verif stay usable meanwhile.
+# and the checks of the related properties (ALL=1: every claimed check; OWN=1: only the responsible check and those the seed's note names) - quick tier - against it from a SCRATCH copy of /verif (own build directory), so that /repo and /verif stay usable meanwhile.
 # Output: seeded/matrix.tsv (seed, check, exit code, number of VIOLATION lines, first violation kind).  Scratch copies are removed at the end.
 ROOT=$(cd "$(dirname "$0")/.." && pwd)
 WT=$(mktemp -d /tmp/mxwt.XXXXXX); rmdir $WT
@@ -25,7 +25,8 @@ for id in $ids; do
   prop=$(python3 -c "import json;print(json.load(open('$ROOT/seeded/$id/meta.json'))['property'])")
   # checks that the seed's meta note names as the ones that catch it (cross-property seeds) are run too
   named=$(python3 -c "import json,re;m=json.load(open('$ROOT/seeded/$id/meta.json'));print(' '.join(sorted(set(re.findall(r'check (C[0-9][0-9])', m.get('note',''))))))")
-  if [ -n "$ALL" ]; then run=$checks; else run=$(echo "$prop $(related $prop) $named" | tr ' ' '\n' | awk 'NF && !seen[$0]++' | tr '\n' ' '); fi
+  if [ -n "$OWN" ]; then run=$(echo "$prop $named" | tr ' ' '\n' | awk 'NF && !seen[$0]++' | tr '\n' ' ')
+  elif [ -n "$ALL" ]; then run=$checks; else run=$(echo "$prop $(related $prop) $named" | tr ' ' '\n' | awk 'NF && !seen[$0]++' | tr '\n' ' '); fi
   for c in $run; do
     out=$(cd $VC && ./check $c --tier quick 2>&1); rc=$?
     nv=$(echo "$out" | grep -c '^VIOLATION')
